@@ -289,7 +289,7 @@ def run_scripts(scripts, servertype, settings, unit=1):
             # leave: client iterators must not send anything from their finalisers
             for it, p, done in its.values():
                 if it is not None:
-                    it.proxy = None
+                    util.detach_iterator(it)
             for p in proxies.values():
                 try:
                     p._pyroRelease()
@@ -305,6 +305,79 @@ def run_scripts(scripts, servertype, settings, unit=1):
     memnet.run(main, max_steps=50000000)
     if len(traces) < len(scripts):
         raise util.MachineryError("session ended early (%d of %d)" % (len(traces), len(scripts)))
+    return traces
+
+
+def run_orphans(settings, servertype):
+    """the application keeps only the iterator: the proxy that made the call is referred to by nothing else (a helper function
+    that returns the stream, `for x in Proxy(uri).numbers()`).  The stream must still deliver everything."""
+    import gc
+    import Pyro5.api as P
+    from Pyro5 import config, errors
+    lifetime, linger, streaming = settings
+    config.SERVERTYPE = servertype
+    config.THREADPOOL_SIZE = 8
+    config.THREADPOOL_SIZE_MIN = 1
+    config.COMMTIMEOUT = 0.0
+    config.ITER_STREAMING = True
+    config.ITER_STREAM_LIFETIME = float(lifetime)
+    config.ITER_STREAM_LINGER = float(linger)
+    traces = []
+
+    def main():
+        sc = S.CUR
+        sc.now = 1000.0
+        d = P.Daemon(host="127.0.0.1")
+        uri = d.register(make_target()(), "src")
+        drv = memnet.ServerDriver(d)
+        for i, how in enumerate(("gen", "lst", "gen")):
+            sc.set_budget(30000)
+            d.streaming_responses.clear()
+            tr = [{"e": "cfg", "lifetime": lifetime, "linger": linger, "streaming": True, "server": servertype}]
+
+            def open_stream():
+                p = P.Proxy(uri)
+                return p.gen(1, 3, 0) if how == "gen" else p.lst(1, 3)
+            try:
+                it = open_stream()
+                gc.collect()
+                tr.append({"e": "Open", "i": 1, "c": 1, "len": 3, "raiseAt": 0, "now": int(sc.now), "ok": hasattr(it, "streamId")})
+                for _ in range(4):
+                    if i == 2:
+                        gc.collect()
+                    try:
+                        v = next(it)
+                        tr.append({"e": "Next", "i": 1, "c": 1, "out": "item", "item": v - 100 if isinstance(v, int) else 999, "now": int(sc.now)})
+                    except StopIteration:
+                        tr.append({"e": "Next", "i": 1, "c": 1, "out": "stop", "item": 0, "now": int(sc.now)})
+                        break
+                    except (S.Hang, S.SchedAbort):
+                        raise
+                    except errors.PyroError:
+                        tr.append({"e": "Next", "i": 1, "c": 1, "out": "gone", "item": 0, "now": int(sc.now)})
+                        break
+                    except Exception:
+                        tr.append({"e": "Next", "i": 1, "c": 1, "out": "other", "item": 0, "now": int(sc.now)})
+                        break
+                sc.quiesce()
+                tr.append({"e": "End", "size": len(d.streaming_responses)})
+                if getattr(it, "proxy", None) is not None:
+                    try:
+                        it.proxy._pyroRelease()
+                    except Exception:
+                        pass
+                    util.detach_iterator(it)
+                del it
+                gc.collect()
+                sc.quiesce()
+            except S.Hang:
+                tr.append({"e": "Next", "i": 1, "c": 0, "out": "hang", "item": 0, "now": 0})
+            traces.append(tr)
+        drv.shutdown()
+        d.close()
+    memnet.run(main, max_steps=5000000)
+    if len(traces) < 3:
+        raise util.MachineryError("orphan-iterator session ended early (%d of 3)" % len(traces))
     return traces
 
 
@@ -392,7 +465,7 @@ def run_overlap(variants, settings):
                 tr += [box["ev"], mid] if box["ev"]["out"] == "item" else [mid, box["ev"]]
                 tr.append(fetch(it, 1, 1))
                 tr.append(fetch(it, 1, 1))
-                it.proxy = None
+                util.detach_iterator(it)
                 sc.quiesce()
                 tr.append({"e": "End", "size": len(d.streaming_responses)})
             except S.Hang:
@@ -457,6 +530,11 @@ def run(ctx):
         otr = run_overlap(variants, sett)
         traces += otr
         metas += [{"script": [{"a": "overlap:" + v}], "settings": sett, "server": "thread", "overlap": v} for v in variants]
+    # the proxy that made the call is kept by nobody but the iterator
+    for st in ("thread", "multiplex"):
+        otr = run_orphans((0, 0, True), st)
+        traces += otr
+        metas += [{"script": [{"a": "orphan-iterator"}], "settings": (0, 0, True), "server": st} for _ in otr]
     for m in metas:
         acts = [s["a"] for s in m["script"]]
         nontriv = "open" in acts and any(a in ("disconnect", "reconnect", "close", "housekeep") for a in acts[acts.index("open"):])
